@@ -21,7 +21,8 @@ Open Scope string_scope.
 Open Scope Z_scope.
 
 (* the four arrays whose lengths are tracked: locals X, Y, s2 (copies of x_train, y_train, s2_train) and tmp_gp.s2 *)
-Inductive avar : Type := VX | VY | VS2 | VTmp.
+Inductive avar : Type := VX | VY | VS2 | VTmp
+                       | VGpX | VGpY.   (* tmp_gp.X, tmp_gp.y: the training set stored ON the GP object (by fit, and by the drop step) *)
 
 (* integer expressions / the guard of the drop step; `a > b` is emitted as ZLt b a, `a >= b` as ZLe b a *)
 Inductive zexpr : Type :=
@@ -40,7 +41,8 @@ Inductive sguard : Type :=
 | GSizePos (v : avar)                    (* v.size > 0 *)
 | GAnd (a b : sguard).
 
-Inductive mapp : Type := MDrop | MKeep.  (* v = v[~mask]  /  v = v[mask] *)
+Inductive mapp : Type := MDrop | MKeep   (* v = v[~mask]  /  v = v[mask] *)
+                       | MCopy (src : avar).   (* v = src : the whole (already trimmed) array src, no mask involved *)
 
 (* the boolean drop mask, as the source builds it *)
 Record mask_src : Type := mkMask {
@@ -79,7 +81,7 @@ Record robust_src : Type := mkRobust {
 }.
 
 (* ---------- interpreter ---------- *)
-Record lens : Type := mkL { l_X : nat; l_Y : nat; l_s2 : s2len; l_tmp : option nat }.
+Record lens : Type := mkL { l_X : nat; l_Y : nat; l_s2 : s2len; l_tmp : option nat; l_gX : nat; l_gY : nat }.
 
 Definition alen (v : avar) (st : lens) : option nat :=          (* None: not an array *)
   match v with
@@ -87,13 +89,17 @@ Definition alen (v : avar) (st : lens) : option nat :=          (* None: not an 
   | VY => Some (l_Y st)
   | VS2 => match l_s2 st with S2Arr m => Some m | _ => None end
   | VTmp => l_tmp st
+  | VGpX => Some (l_gX st)
+  | VGpY => Some (l_gY st)
   end.
 Definition aset (v : avar) (n : nat) (st : lens) : lens :=
   match v with
-  | VX => mkL n (l_Y st) (l_s2 st) (l_tmp st)
-  | VY => mkL (l_X st) n (l_s2 st) (l_tmp st)
-  | VS2 => mkL (l_X st) (l_Y st) (S2Arr n) (l_tmp st)
-  | VTmp => mkL (l_X st) (l_Y st) (l_s2 st) (Some n)
+  | VX => mkL n (l_Y st) (l_s2 st) (l_tmp st) (l_gX st) (l_gY st)
+  | VY => mkL (l_X st) n (l_s2 st) (l_tmp st) (l_gX st) (l_gY st)
+  | VS2 => mkL (l_X st) (l_Y st) (S2Arr n) (l_tmp st) (l_gX st) (l_gY st)
+  | VTmp => mkL (l_X st) (l_Y st) (l_s2 st) (Some n) (l_gX st) (l_gY st)
+  | VGpX => mkL (l_X st) (l_Y st) (l_s2 st) (l_tmp st) n (l_gY st)
+  | VGpY => mkL (l_X st) (l_Y st) (l_s2 st) (l_tmp st) (l_gX st) n
   end.
 Definition is_none (v : avar) (st : lens) : bool :=
   match v with
@@ -152,12 +158,20 @@ Fixpoint run_stores (stores : list (avar * sguard * mapp)) (len k : nat) (st : l
       | None => inl "AttributeError: 'NoneType' object has no attribute 'size'"
       | Some false => run_stores rest len k st
       | Some true =>
-          match alen v st with
-          | None => inl "TypeError: object is not subscriptable"
-          | Some n =>
-              if Nat.eqb n len
-              then run_stores rest len k (aset v (match app with MDrop => n - k | MKeep => k end)%nat st)
-              else inl ix_error
+          match app with
+          | MCopy src =>
+              match alen src st with
+              | None => inl "TypeError: object is not subscriptable"
+              | Some n => run_stores rest len k (aset v n st)
+              end
+          | _ =>
+              match alen v st with
+              | None => inl "TypeError: object is not subscriptable"
+              | Some n =>
+                  if Nat.eqb n len
+                  then run_stores rest len k (aset v (match app with MDrop => n - k | _ => k end)%nat st)
+                  else inl ix_error
+              end
           end
       end
   end.
@@ -236,7 +250,8 @@ Section RunRobust.
             match convert_error (l_X st) (l_Y st) (l_s2 st) with
             | Some msg => RFStuck msg (rev tr')
             | None =>
-                let st1 := mkL (l_X st) (l_Y st) (l_s2 st) (stored_after_fit (l_X st) (l_s2 st) (l_tmp st)) in
+                (* GP.fit stores its arguments on the object before any linear algebra: self.X, self.y (and s2 when given) *)
+                let st1 := mkL (l_X st) (l_Y st) (l_s2 st) (stored_after_fit (l_X st) (l_s2 st) (l_tmp st)) (l_X st) (l_Y st) in
                 if negb (fails j) then
                   if rs_try_breaks p then finish p (rs_binds_res p) fl tr'
                   else run_loop left' (S i_try) (S j) st1 fl (rs_binds_res p || res_bound) tr'
@@ -252,7 +267,7 @@ Section RunRobust.
     end.
 
   Definition run_robust (j nX nY : nat) (s2 : s2len) (tmp : option nat) : rf_result :=
-    run_loop (rs_n_try p) 0 j (mkL nX nY s2 tmp) (repeat (rs_flag_init p) (rs_n_try p)) false [].
+    run_loop (rs_n_try p) 0 j (mkL nX nY s2 tmp nX nY) (repeat (rs_flag_init p) (rs_n_try p)) false [].
 End RunRobust.
 
 (* the unique drop statement of a handler *)
@@ -331,6 +346,7 @@ Definition model_mask : mask_src :=
 Definition model_drop_cond : zcond := ZLt (ZSub (ZOpt "remove_points_after_tries") (ZConst 1)) ZItry.   (* i_try > rpat - 1 *)
 Definition model_drop_stores : list (avar * sguard * mapp) :=
   [(VX, GAlways, MDrop); (VY, GAlways, MDrop);
+   (VGpX, GAlways, MCopy VX); (VGpY, GAlways, MCopy VY);      (* tmp_gp.X = X; tmp_gp.y = Y  AFTER the two stores above *)
    (VTmp, GAnd (GNotNone VTmp) (GSizePos VTmp), MDrop);
    (VS2, GAnd (GNotNone VS2) (GNotScalar VS2), MDrop)].
 Definition model_robust : robust_src :=
@@ -438,9 +454,15 @@ Fixpoint restart_iter (r : restart_src) (ss : nat -> option Q) (old n0 : Q) (f :
   end.
 
 (* ---------- what the slice sampler of the restart sees (options["use_slice_sampler"] = True) ----------
-   _get_samples_from_slice_sampler_(tmp_gp, ...) evaluates tmp_gp's objective on tmp_gp.X / tmp_gp.y — stored by the failed
-   fit (the rows handed to it) and NOT among the masked stores of the drop step — and on tmp_gp.s2, which IS among them.
-   The objective adds s2 to the diagonal of the N x N covariance: ValueError unless s2 is absent or has N entries. *)
-Definition sampler_sees (rows_at_fit : nat) (after_drop : lens) : nat * option nat := (rows_at_fit, l_tmp after_drop).
-Definition sampler_ok (v : nat * option nat) : bool :=
-  match snd v with Some m => Nat.eqb m (fst v) | None => true end.
+   _get_samples_from_slice_sampler_(tmp_gp, ...) evaluates tmp_gp's objective on tmp_gp.X, tmp_gp.y and tmp_gp.s2.
+   The objective adds s2 to the diagonal of the N x N covariance of X and multiplies by y: ValueError unless y has N rows and
+   s2 is absent or has N entries. *)
+Definition sampler_sees (after_drop : lens) : nat * nat * option nat := (l_gX after_drop, l_gY after_drop, l_tmp after_drop).
+Definition sampler_ok (v : nat * nat * option nat) : bool :=
+  let '(gx, gy, t) := v in
+  Nat.eqb gy gx && match t with Some m => Nat.eqb m gx | None => true end.
+(* the drop step as it was before the repair (no store into tmp_gp.X / tmp_gp.y): kept for the regression lemma *)
+Definition old_drop_stores : list (avar * sguard * mapp) :=
+  [(VX, GAlways, MDrop); (VY, GAlways, MDrop);
+   (VTmp, GAnd (GNotNone VTmp) (GSizePos VTmp), MDrop);
+   (VS2, GAnd (GNotNone VS2) (GNotScalar VS2), MDrop)].
